@@ -382,17 +382,53 @@ func c18Scenario(s *c18Script) []string {
 	}
 	r.mu.Unlock()
 
+	// whose connection an OnAccept call belongs to
+	nA := 0
+	for i := range evs {
+		if evs[i].kind == "A" {
+			ci, ok := local[evs[i].addr]
+			if !ok {
+				ci = -1 - nA // unknown peer (cannot happen: only our clients connect)
+			}
+			evs[i].client = ci
+			nA++
+		}
+	}
+	// The time stamp of "A" is taken inside the OnAccept callback, which runs after the accept itself (netpoll: in
+	// OnPrepare, on another goroutine) and may be scheduled late on a loaded machine: it is an UPPER bound of the moment
+	// the server took the connection.  A connection whose dial had completed at the client before the first Shutdown
+	// call was established before shutdown began; when its callback was recorded only after that call, the accept is
+	// placed right before the call (the latest moment consistent with both observations).
+	firstS := -1
+	for i := range evs {
+		if evs[i].kind == "S" {
+			firstS = i
+			break
+		}
+	}
+	if firstS >= 0 {
+		dialedBefore := map[int]bool{}
+		for i := 0; i < firstS; i++ {
+			if evs[i].kind == "De" && evs[i].f1 == 1 {
+				dialedBefore[evs[i].client] = true
+			}
+		}
+		for j := firstS + 1; j < len(evs); j++ {
+			if evs[j].kind == "A" && dialedBefore[evs[j].client] {
+				a := evs[j]
+				a.t = evs[firstS].t
+				copy(evs[firstS+1:j+1], evs[firstS:j])
+				evs[firstS] = a
+				firstS++
+			}
+		}
+	}
 	// number the connections in accept order
 	cid := map[int]int{}
 	n := 0
 	for i := range evs {
 		if evs[i].kind == "A" {
-			ci, ok := local[evs[i].addr]
-			if !ok {
-				ci = -1 - n // unknown peer (cannot happen: only our clients connect)
-			}
-			cid[ci] = n
-			evs[i].client = ci
+			cid[evs[i].client] = n
 			n++
 		}
 	}
